@@ -77,6 +77,9 @@ func registerChain(w *world.World, id, router uint64, name string) {
 
 func newEnv(router string) *env {
 	if sharedW == nil || sharedUses >= casesPerWorld {
+		if sharedW != nil {
+			sharedW.Store.Close() // stop the retired LevelDB's background goroutines
+		}
 		sharedW = world.New(nPolyVal, world.Opts{})
 		registerChain(sharedW, dstChain, utils.ETH_ROUTER, "dst")
 		sharedUses, nextChain = 0, 1000
